@@ -1,4 +1,4 @@
-import Ecal.Lemmas.PoolEnabled
+import Ecal.Lemmas.PoolFair
 import Ecal.Gen.C09
 /-!
 # C09 — the thread pool runs every accepted task exactly once without outside help
@@ -131,6 +131,66 @@ theorem internal_of_mem {s : State} {e : Event} (h : e ∈ internalEvents s) : i
   · simp at h; subst h; rfl
   · simp at h
     rcases h with h | h | h | h <;> subst h <;> rfl
+
+/-- **Under fairness a queued task is started** (the combined corollary of `no_stuck_task` and
+    `pop_within_bound`; queue level: SOME queued task — which one is the queue's business, see
+    `fifo_started_in_order` for `DefaultTaskQueue`). In every infinite execution of the repaired pool
+    (`Exec`: any interleaving, attempts that are not enabled stutter) that is fair (`Exec.Fair`: whenever a
+    pool-internal event is enabled, a pool-internal event is eventually taken — the assumption about the Go
+    scheduler and about terminating tasks) and in which no new call is made from tick `N` on
+    (`Exec.CallsStopAt`: only pool-internal events and polling broadcasts), if a task is queued at tick `N`
+    then at some later tick a worker pops a task — or the pool has lost all its workers (every one of them
+    was told to exit: outside the property's "while the pool has at least one worker"). No further call,
+    no polling broadcast is needed: the hypothesis allows them but does not use them. -/
+theorem fair_queued_task_started (X : Exec) (hf : X.Fair) {N : Nat} (hc : X.CallsStopAt N)
+    (hq : (X.C N).queue ≠ []) : ∃ m, N ≤ m ∧ (X.took isPop m ∨ (X.C m).live = 0) := by
+  suffices ∀ k n, N ≤ n → cmu (abs (X.C n)) ≤ k → (X.C n).queue ≠ [] →
+      ∃ m, n ≤ m ∧ (X.took isPop m ∨ (X.C m).live = 0) by
+    obtain ⟨m, hm, h⟩ := this _ N (Nat.le_refl N) (Nat.le_refl _) hq
+    exact ⟨m, hm, h⟩
+  intro k
+  induction k with
+  | zero =>
+    intro n hn hk hqn
+    by_cases hl : (X.C n).live = 0
+    · exact ⟨n, Nat.le_refl n, Or.inr hl⟩
+    · have hen : enabledInternal (X.C n) := by
+        rcases no_stuck_task (exec_reachable X n) hqn with ⟨e, he, _, h⟩ | hsat
+        · exact ⟨e, he, h⟩
+        · exact run_enabled (by omega)
+      obtain ⟨m, hnm, htook⟩ := hf n hen
+      have hmd : n + (m - n) = m := by omega
+      rcases ticks_measure X hc (m - n) hn hqn with ⟨j, h1, _, h3⟩ | ⟨hmeas, hqm⟩
+      · exact ⟨j, h1, Or.inl h3⟩
+      · rw [hmd] at hmeas hqm
+        by_cases hp : X.took isPop m
+        · exact ⟨m, hnm, Or.inl hp⟩
+        · have := (tick_measure X hc (by omega : N ≤ m) hqm hp).2.2 htook
+          omega
+  | succ k ih =>
+    intro n hn hk hqn
+    by_cases hl : (X.C n).live = 0
+    · exact ⟨n, Nat.le_refl n, Or.inr hl⟩
+    · have hen : enabledInternal (X.C n) := by
+        rcases no_stuck_task (exec_reachable X n) hqn with ⟨e, he, _, h⟩ | hsat
+        · exact ⟨e, he, h⟩
+        · exact run_enabled (by omega)
+      obtain ⟨m, hnm, htook⟩ := hf n hen
+      have hmd : n + (m - n) = m := by omega
+      rcases ticks_measure X hc (m - n) hn hqn with ⟨j, h1, _, h3⟩ | ⟨hmeas, hqm⟩
+      · exact ⟨j, h1, Or.inl h3⟩
+      · rw [hmd] at hmeas hqm
+        by_cases hp : X.took isPop m
+        · exact ⟨m, hnm, Or.inl hp⟩
+        · have ht := tick_measure X hc (by omega : N ≤ m) hqm hp
+          have hstrict := ht.2.2 htook
+          have hq1 : (X.C (m + 1)).queue ≠ [] := by
+            intro hnil
+            have hl' := ht.2.1
+            rw [hnil] at hl'
+            exact hqm (List.eq_nil_of_length_eq_zero hl'.symm)
+          obtain ⟨m', hm', h⟩ := ih (m + 1) (by omega) (by omega) hq1
+          exact ⟨m', by omega, h⟩
 
 /-- **Resizing converges.** No reachable state has a pending kill request (`workerKill > 0`) while
     every remaining worker is parked: as long as `workerKill > 0` and a worker has not been told to
